@@ -386,6 +386,8 @@ def run(ck, w):
             else:
                 ck.fail(o2, sd.name, "block_relpath not of the content hash", "block_relpath arg from %s" % flow.origin_summary(ro))
 
+    _who_removes(ck, w)
+
     # ---- 6. failed-write cleanup of the local transport ------------------------------------------------------------
     o = ck.ob("C07.6", "local Protocol::write: the cleanup remove_file runs only after this call itself opened the file")
     fn = IMPLS["local"]
@@ -405,3 +407,45 @@ def run(ck, w):
                         "remove_file can delete a file that existed before this write (no OpenOptions::open precedes it)", rm[0].site())
             else:
                 order_after_success(ck, o, lb, opens, rm, "OpenOptions::open", "cleanup remove_file", fn_key=fn)
+
+
+def _who_removes(ck, w):
+    """C07.6b/6c: only delete/gc code removes archive files; a backup cannot reach a removal."""
+    g = w.graph
+    lib = w.lib
+    o = ck.ob("C07.6b", "nothing reachable from backup() removes an archive file (Transport::remove_file / remove_dir_all)")
+    entry = "backup::backup"
+    have = g.effects.get(entry, set()) & {"T_REMOVE"}
+    if entry not in g.bodies:
+        ck.fail(o, entry, "anchor-missing", "backup::backup not found")
+    elif have:
+        path = g.find_call_path([entry], lambda n: bool(graph.primitive_effects(n) & {"T_REMOVE"}))
+        ck.fail(o, (path[-2] if path and len(path) > 1 else entry).replace("::{closure#0}", ""), "backup path removes an archive file",
+                "call path: %s" % " -> ".join(path or []))
+    else:
+        ck.ok(o, "%d bodies reachable from backup()" % len(g.reachable_from([entry])))
+    o = ck.ob("C07.6c", "the only callers of Transport::remove_file / remove_dir_all are delete_block, Band::delete and the gc lock")
+    perf = g.direct_performers("T_REMOVE")
+    roots = set()
+    for n in perf:
+        b = g.bodies.get(n)
+        roots.add((("bin::" if n.startswith("bin::") else "") + b.root) if b is not None else n)
+    allowed = {"blockdir::BlockDir::delete_block", "band::Band::delete", "gc_lock::GarbageCollectionLock::release",
+               "gc_lock::GarbageCollectionLock::break_lock", "<gc_lock::GarbageCollectionLock as std::ops::Drop>::drop"}
+    if roots - allowed:
+        ck.fail(o, ",".join(sorted(roots - allowed)), "unexpected remover", "%s remove archive files" % sorted(roots - allowed))
+    else:
+        ck.ok(o, "removers=%s" % sorted(roots), instances=len(roots))
+    o = ck.ob("C07.6d", "block-store and index-write paths perform no file-system removal of their own below the transport (except the failed-write cleanup checked in C07.6)")
+    bad = []
+    for b in rules.user_bodies(lib):
+        if b.file.startswith("src/transport/") or b.file.startswith("src/test_fixtures") or b.file.startswith("src/restore"):
+            continue
+        for e in b.events:
+            if e.bb in b.live and e.callee != rules.POLL and re.search(r"^(std|tokio)::fs::remove_(file|dir|dir_all)$", e.name):
+                bad.append((b, e))
+    if bad:
+        for b, e in bad:
+            ck.fail(o, b.root, "direct file removal outside the transport", "%s calls %s" % (b.root, e.name), e.site())
+    else:
+        ck.ok(o)
